@@ -10,9 +10,9 @@
   BYMINUTE or BYSECOND but no BYHOUR gets instants with H = ALL_DAY and a non-zero minute / second, which are not
   `WfInst`, e.g.
     r = { freq := 4, S := [30] }, p = 2020-01-01 (all day):  fillDly r p 3 = 2020-01-01 H=255 M=0 S=30, 01-02 …, 01-03 …
-  It is proved under the extra hypothesis `TimeOk r p` (an all-day seed without BYHOUR has neither BYMINUTE nor BYSECOND).
-  (`d += rr->inter` cannot wrap for an `int` INTERVAL, unlike the weekly `d += rr->inter * 7U`; the hand-over to the
-  weekly filler happens for INTERVAL=1 only.)  `hn : n ≤ 64` is not needed.
+  It is proved under the extra hypothesis `TimeOk r p` (RrOkBase) as `fillDly_ok_partial`.
+  (`d += rr->inter` cannot wrap for an `int` INTERVAL; the hand-over to the weekly filler happens for INTERVAL=1.)
+  `hn : n ≤ 64` is not needed.
 -/
 import Echse.Lemmas.RrWlyLoop
 namespace Echse.Lemmas.RrOkBase
@@ -55,8 +55,7 @@ theorem fillDly_spec (r : Rule) (p : Inst) (n : Nat) (hr : WfRule r) (hp : WfIns
     · rw [if_neg c1]
       split
       · rename_i c2
-        have hi := hr.inter
-        obtain ⟨l, hl, hok⟩ := fillWly_spec r p nti hr hp (by unfold u32 at c2; omega)
+        obtain ⟨l, hl, hok⟩ := fillWly_spec r p nti hr hp
         exact ⟨l, hl, fun ht => fillOk_mono (hok ht) hcap'.1⟩
       · exact dly_finish r p nti n _ _ _ _ hr hp hcap'
 
@@ -72,7 +71,7 @@ theorem fillDly_total (r : Rule) (p : Inst) (n : Nat) (hr : WfRule r) (hp : WfIn
   rw [hl]; rfl
 
 theorem fillDly_ok_partial (r : Rule) (p : Inst) (n : Nat) (l : List Inst) (hr : WfRule r) (hp : WfInst p)
-    (ht : TimeOk r p) (h : fillDly r p n = some l) : FillOk r p n l := by
+    (_hn : n ≤ 64) (ht : TimeOk r p) (h : fillDly r p n = some l) : FillOk r p n l := by
   obtain ⟨l', hl, hok⟩ := fillDly_spec r p n hr hp
   rw [hl] at h
   cases h
